@@ -56,10 +56,6 @@ Lemma atom_char_inv c : atom_char c = true ->
   is_ws c = false /\ is_brk c = false /\ N.eqb c cDQ = false /\ N.eqb c cBAR = false.
 Proof. unfold atom_char. rewrite negb_true_iff, !orb_false_iff. tauto. Qed.
 
-Lemma atom_char_tl_inv c : atom_char_tl c = true ->
-  is_ws c = false /\ is_brk c = false.
-Proof. unfold atom_char_tl. rewrite negb_true_iff, !orb_false_iff. tauto. Qed.
-
 Lemma is_brk_inv c : is_brk c = false ->
   N.eqb c cLP = false /\ N.eqb c cRP = false /\ N.eqb c cSEMI = false.
 Proof. unfold is_brk. rewrite !orb_false_iff. tauto. Qed.
@@ -138,33 +134,37 @@ Proof.
   now rewrite forallb_rev.
 Qed.
 
+(* a comment ends with its line-breaking character, LF or CR, and has none before *)
 Lemma comment_inv t : comment_ok t = true ->
-  exists body, t = cSEMI :: body ++ [cLF] /\
-               forallb (fun x => negb (N.eqb x cLF)) body = true.
+  exists body z, t = cSEMI :: body ++ [z] /\ is_lb z = true /\
+                 forallb (fun x => negb (is_lb x)) body = true.
 Proof.
-  intros H. unfold comment_ok in H.
-  apply (delim_inv cSEMI cLF (fun br => forallb (fun x => negb (N.eqb x cLF)) br)) in H.
-  destruct H as (br & -> & H). exists (rev br). split; [reflexivity|].
-  now rewrite forallb_rev.
+  destruct t as [|c tl]; [discriminate|].
+  cbn [comment_ok]. intros H. apply andb_true_iff in H. destruct H as [Hc H].
+  apply N.eqb_eq in Hc. subst c.
+  destruct (rev tl) as [|d br] eqn:E; [discriminate|].
+  apply andb_true_iff in H. destruct H as [Hd HP].
+  exists (rev br), d. split; [|split; [assumption|now rewrite forallb_rev]].
+  rewrite <- (rev_involutive tl), E. reflexivity.
 Qed.
 
 Lemma atom_inv t : atom_ok_lib t = true ->
-  exists a tl, t = a :: tl /\ atom_char a = true /\ forallb atom_char_tl tl = true.
+  exists a tl, t = a :: tl /\ atom_char a = true /\ forallb atom_char tl = true.
 Proof.
   destruct t as [|a tl]; [discriminate|].
-  cbn [atom_ok_lib]. intros H. apply andb_true_iff in H.
+  unfold atom_ok_lib, atom_ok. cbn [forallb]. intros H. apply andb_true_iff in H.
   exists a, tl. tauto.
 Qed.
 
 (* ---------- running over the text of one leaf ---------- *)
 
-Lemma run_atom_tl o k tl : forall acc, forallb atom_char_tl tl = true ->
+Lemma run_atom_tl o k tl : forall acc, forallb atom_char tl = true ->
   run tl (mkst o k (MTok acc)) = mkst o k (MTok (rev tl ++ acc)).
 Proof.
   induction tl as [|c tl IH]; intros acc H; [reflexivity|].
   cbn [forallb] in H. apply andb_true_iff in H. destruct H as [Hc H].
-  apply atom_char_tl_inv in Hc. destruct Hc as [Hws Hbrk].
-  rewrite run_cons. unfold step at 1. cbn [md out stack]. rewrite Hws, Hbrk.
+  apply atom_char_inv in Hc. destruct Hc as (Hws & Hbrk & Hdq & Hbar).
+  rewrite run_cons. unfold step at 1. cbn [md out stack]. rewrite Hws, Hbrk, Hdq, Hbar. cbn [orb].
   rewrite IH by assumption. cbn [rev]. rewrite <- app_assoc. reflexivity.
 Qed.
 
@@ -245,12 +245,12 @@ Proof.
 Qed.
 
 Lemma run_combody o k body : forall acc,
-  forallb (fun x => negb (N.eqb x cLF)) body = true ->
+  forallb (fun x => negb (is_lb x)) body = true ->
   run body (mkst o k (MCom acc)) = mkst o k (MCom (rev body ++ acc)).
 Proof.
   induction body as [|c body IH]; intros acc H; [reflexivity|].
   cbn [forallb] in H. apply andb_true_iff in H. destruct H as [Hc H].
-  apply negb_true_iff in Hc.
+  apply negb_true_iff in Hc. unfold is_lb in Hc.
   rewrite run_cons. unfold step at 1. cbn [md out stack]. rewrite Hc.
   rewrite IH by assumption. cbn [rev]. rewrite <- app_assoc. reflexivity.
 Qed.
@@ -258,12 +258,12 @@ Qed.
 Lemma run_comment o k t : comment_ok t = true ->
   run t (mkst o k MTop) = emit (L t) (mkst o k MTop).
 Proof.
-  intros H. apply comment_inv in H. destruct H as (body & -> & Hb).
+  intros H. apply comment_inv in H. destruct H as (body & z & -> & Hz & Hb).
   rewrite run_cons.
   change (step (mkst o k MTop) cSEMI) with (mkst o k (MCom [cSEMI])).
   rewrite run_app, run_combody by assumption.
   rewrite run_cons, run_nil. unfold step. cbn [md out stack].
-  rewrite N.eqb_refl.
+  unfold is_lb in Hz. rewrite Hz.
   rewrite (emit_md _ o k _ MTop). f_equal. f_equal.
   cbn [rev]. rewrite rev_app_distr, rev_involutive. reflexivity.
 Qed.
@@ -275,14 +275,14 @@ Definition term (x : lexeme) (c : char) : bool :=
   | Tok (a :: _) =>
       if N.eqb a cDQ then negb (N.eqb c cDQ)
       else if N.eqb a cBAR || N.eqb a cSEMI then true
-      else is_ws c || is_brk c
+      else is_ws c || is_brk c || N.eqb c cDQ || N.eqb c cBAR
   | _ => true
   end.
 
 Lemma term_ws x c : is_ws c = true -> term x c = true.
 Proof.
   intros H. destruct x as [| |[|a t]]; try reflexivity.
-  cbn [term]. rewrite H.
+  cbn [term]. rewrite H. cbn [orb].
   destruct (N.eqb a cDQ).
   - apply is_ws_cases in H. destruct H as [ -> | [ -> | [ -> | -> ] ] ]; reflexivity.
   - destruct (_ || _); reflexivity.
@@ -291,7 +291,7 @@ Qed.
 Lemma term_brk x c : is_brk c = true -> term x c = true.
 Proof.
   intros H. destruct x as [| |[|a t]]; try reflexivity.
-  cbn [term]. rewrite H, orb_true_r.
+  cbn [term]. rewrite H, orb_true_r. cbn [orb].
   destruct (N.eqb a cDQ).
   - unfold is_brk in H. rewrite !orb_true_iff, !N.eqb_eq in H.
     destruct H as [ [ -> | -> ] | -> ]; reflexivity.
@@ -301,6 +301,20 @@ Qed.
 Lemma leaf_ok_cases t : leaf_ok t = true ->
   atom_ok_lib t = true \/ strlit_ok t = true \/ qsym_ok t = true \/ comment_ok t = true.
 Proof. unfold leaf_ok. rewrite !orb_true_iff. tauto. Qed.
+
+Lemma term_dq x c : N.eqb c cDQ = true ->
+  match x with Tok (a :: _) => N.eqb a cDQ = false | _ => True end -> term x c = true.
+Proof.
+  intros H Hx. destruct x as [| |[|a t]]; try reflexivity.
+  cbn [term]. rewrite Hx, H, !orb_true_r. destruct (_ || _); reflexivity.
+Qed.
+
+Lemma term_bar x c : N.eqb c cBAR = true -> term x c = true.
+Proof.
+  intros H. destruct x as [| |[|a t]]; try reflexivity.
+  cbn [term]. rewrite H, !orb_true_r. apply N.eqb_eq in H. subst c.
+  destruct (N.eqb a cDQ); [reflexivity|]. destruct (_ || _); reflexivity.
+Qed.
 
 Lemma may_touch_term x y c r :
   lex_ok x = true -> lex_ok y = true -> may_touch x y = true ->
@@ -312,13 +326,22 @@ Proof.
   - injection Ht as <- <-. now apply term_brk.
   - injection Ht as <- <-. now apply term_brk.
   - cbn [lex_text] in Ht. subst t. cbn [may_touch] in Hm.
-    rewrite !orb_true_iff, !andb_true_iff in Hm.
-    destruct Hm as [ [ [Hm|Hm] | [Hm Hc] ] | [Hm Hc] ].
-    + apply comment_inv in Hm. destruct Hm as (b & -> & _). reflexivity.
+    rewrite !orb_true_iff, !andb_true_iff, !orb_true_iff in Hm.
+    destruct Hm as [ [ [Hm|Hm] | [Hm Hc] ] | [Hm [ [Hc|Hc] | Hc] ] ].
+    + apply comment_inv in Hm. destruct Hm as (b & z & -> & _). reflexivity.
     + apply qsym_inv in Hm. destruct Hm as (b & -> & _). reflexivity.
     + apply strlit_inv in Hm. destruct Hm as (b & -> & _). exact Hc.
-    + apply comment_inv in Hc. destruct Hc as (b & E & _).
+    + (* atom, then a comment *)
+      apply comment_inv in Hc. destruct Hc as (b & z & E & _).
       injection E as -> _. now apply term_brk.
+    + (* atom, then a string literal: the atom ends before the quote *)
+      apply strlit_inv in Hc. destruct Hc as (b & E & _).
+      injection E as -> _. apply term_dq; [reflexivity|].
+      apply atom_inv in Hm. destruct Hm as (a & tl & -> & Ha & _).
+      apply atom_char_inv in Ha. tauto.
+    + (* atom, then a quoted symbol: the atom ends before the bar *)
+      apply qsym_inv in Hc. destruct Hc as (b & E & _).
+      injection E as -> _. now apply term_bar.
 Qed.
 
 (* ---------- one lexeme ---------- *)
